@@ -27,7 +27,8 @@ def corpus(decls):
             ("strarr", 8), ("strarr", 5), ("tuple", [b]), S([b256, u64]), ("option", u64), ("tuple", [u64, ("array", u8, 3)]),
             S([E([u64, u64]), u64]), ("array", ("tuple", [u64, u64]), 2), ("tuple", [u16]), E([b256, ("tuple", [u64, u64, u64, u64])]),
             ("array", b, 4), ("tuple", [("array", b, 8)]), E([("array", u64, 0)]), S([("tuple", [u64])]), ("result", u64, u64),
-            E([("strarr", 8), u64]), ("tuple", [("strarr", 16), u64]), ("tuple", [u32, u32]), E([S([u64]), ("tuple", [u64])]), u64, b, u8]
+            E([("strarr", 8), u64]), ("tuple", [("strarr", 16), u64]), ("tuple", [u32, u32]), E([S([u64]), ("tuple", [u64])]), u64, b, u8,
+            ("array", ("tuple", [u8]), 3), ("array", E([u64, u64]), 2), ("tuple", [b256]), ("array", ("tuple", [b]), 2), ("array", ("option", u64), 2)]
 
 
 # std's opt-in wrapper TrivialEnum<T> declares itself trivially encodable whatever T is (known finding)
@@ -67,8 +68,10 @@ def gen_tests(rng, types, idx0):
         ty = ag.sway_type(t)
         tests.append("#[test]\nfn c%04d() { log(is_encode_trivial::<%s>()); log(is_decode_trivial::<%s>()); }" % (i, ty, ty))
         v = ag.gen_value(rng, t)
-        tests.append("#[test]\nfn e%04d() {\n    let v: %s = %s;\n    log(encode(v));\n    log(encode_configurable(v));\n"
-                     "    log(raw_slice::from_parts::<u8>(__addr_of(v), __size_of::<%s>()));\n}" % (i, ty, ag.sway_expr(t, v), ty))
+        pre = []
+        ex = ag.sway_expr(t, v, pre, ag.Fresh())
+        tests.append("#[test]\nfn e%04d() {\n%s    let v: %s = %s;\n    log(encode(v));\n    log(encode_configurable(v));\n"
+                     "    log(raw_slice::from_parts::<u8>(__addr_of(v), __size_of::<%s>()));\n}" % (i, "".join("    %s\n" % x for x in pre), ty, ex, ty))
         bad = None
         cs = corruptions(t, v)
         if cs:
@@ -89,24 +92,36 @@ def gen_tests(rng, types, idx0):
 
 def run(ctx):
     ctx.level = "proof"
-    try:
-        from tools import facts_layout
-        facts_layout.generate()
-    except Exception as e:
-        ctx.violation("layout-facts", {"error": str(e)}, "layout/codec facts can no longer be translated from the source: %s" % e, no_input=True)
-        return
+    from tools import facts_layout
+    # A translator failure means the source no longer has the shape the model was written against.  The run
+    # goes on with the last good facts and searches for a concrete failing input; the break itself is
+    # reported at the end (no_input).
+    facts_ok, facts_err = facts_layout.prepare()
+    if not facts_ok:
+        ctx.log("facts translator failed (%s): continuing with the last good facts, searching for a failing input" % facts_err)
     coq.build(["C10/Judge.vo"])
     ok, out = coq.check_props(ctx, "C10")
     if not ok:
         ctx.log(out[-3000:])
-        ctx.violation("proof", {"theorems": [o for o in ctx.obligations if not o[1]], "log": out[-2000:]}, "C10 proofs do not check", no_input=True)
+    if ok and facts_ok:
+        facts_layout.save_snapshot()
+    tie_broken = not (ok and facts_ok)
     base = os.path.join(ctx.work, "pkgs")
     npk, per = (5, 14) if ctx.quick else (48, 24)
     pk = []
     idx = 0
+    ncorp = 5 if ctx.quick else 8
+    plans = []
     for p in range(npk):
         decls = ag.Decls("P%d" % p)
-        types = corpus(decls)[(p * 5) % 29:][:5] if p < 6 else []
+        plans.append((decls, corpus(decls)[p::ncorp] if p < ncorp else [], per))
+    if tie_broken:
+        # focused search in the neighbourhood of the classification boundary
+        for k in range(0, len(ag.neighbourhood(ag.Decls("N"), with_heap=True)), 24):
+            dk = ag.Decls("N%d" % k)
+            plans.append((dk, ag.neighbourhood(dk, with_heap=True)[k:k + 24], 0))
+    for p, (decls, types, per) in enumerate(plans):
+        types = list(types)
         while len(types) < per:
             d = ctx.rng.choice([0, 1, 1, 2, 2, 3])
             types.append(ag.gen_type(ctx.rng, d, decls, KINDS, LEAFS, max_fields=3))
@@ -167,6 +182,10 @@ def run(ctx):
         rs = coq.run_cases(ctx, "c10", "From SwayV Require Import Base.Util Layout.Bytes Layout.Abi C10.Model C10.Judge.\nLocal Open Scope N_scope.", shards)
     except RuntimeError as e:
         ctx.violation("model-eval", {"log": str(e)[-3000:]}, "C10 judge could not be evaluated", no_input=True)
+        if not facts_ok:
+            ctx.violation("layout-facts", {"error": facts_err}, "layout/codec facts can no longer be translated from the source (%s)" % facts_err, no_input=True)
+        if not ok:
+            ctx.violation("proof", {"theorems": [o for o in ctx.obligations if not o[1]], "log": out[-2000:]}, "C10 proofs do not check", no_input=True)
         return
     hist = {}
     for k, sh_ in enumerate(rs):
@@ -179,6 +198,11 @@ def run(ctx):
                 ctx.violation(key, rep, "%s for type %s" % (CODES[c], ag.shape(m["t"])))
             else:
                 ctx.violation(key, dict(rep, correspondence="C10.model=vm"), "model and VM observation differ (%s) for type %s; theorems no longer tied to the code" % (CODES[c], ag.shape(m["t"])), no_input=True)
+    if not facts_ok:
+        ctx.violation("layout-facts", {"error": facts_err, "searched": len(items)},
+                      "layout/codec facts can no longer be translated from the source (%s); the run used the last good facts" % facts_err, no_input=True)
+    if not ok:
+        ctx.violation("proof", {"theorems": [o for o in ctx.obligations if not o[1]], "log": out[-2000:]}, "C10 proofs do not check", no_input=True)
     ctx.coverage.update({
         "checker_cmd": "make -C coq C10/Props.vo C10/Judge.vo (coqc 8.16.1) + coqc vm_compute judge over fuel-vm observations",
         "trusted_base": ["Coq 8.16.1 kernel + vm_compute", "tools/facts_layout.py (codec.sw/irtype.rs -> Generated/LayoutFacts.v)",
